@@ -270,6 +270,77 @@ class Program:
                                 n2.j["callee"] = a
                             elif n2.k == "DeclRefExpr" and n2.j.get("dk") == "func" and n2.j.get("name") == new:
                                 n2.j["name"] = a
+        # parameters that were merely renamed get their confirmed names back
+        try:
+            with open(os.path.join(VERIF, "rules", "tables", "anchors.json")) as f:
+                pconf = json.load(f).get("params", {})
+        except OSError:
+            pconf = {}
+        self.renamed_params = {}
+        for tab in (self.functions, self.util_functions):
+            for name, fn in tab.items():
+                conf = pconf.get(name)
+                if not conf or len(conf) != len(fn.params):
+                    continue
+                cur = [(q["name"], q.get("ct")) for q in fn.params]
+                if [c[1] for c in cur] != [c[1] for c in conf] or [c[0] for c in cur] == [c[0] for c in conf]:
+                    continue
+                ren = {cur[i][0]: conf[i][0] for i in range(len(cur)) if cur[i][0] != conf[i][0]}
+                taken = set(d2["name"] for n2 in fn.nodes if n2 is not None and n2.k == "DeclStmt" for d2 in n2.j.get("decls", []))
+                taken |= set(q["name"] for q in fn.params if q["name"] not in ren)
+                if any(v in taken for v in ren.values()):
+                    continue
+                for q in fn.j["params"]:
+                    if q["name"] in ren:
+                        q["name"] = ren[q["name"]]
+                for n2 in fn.nodes:
+                    if n2 is not None and n2.k == "DeclRefExpr" and n2.j.get("dk") == "param" and n2.j.get("name") in ren:
+                        n2.j["name"] = ren[n2.j["name"]]
+                fn.params = fn.j["params"]
+                if hasattr(fn, "_alias_map"):
+                    fn._alias_map = None
+                self.renamed_params[name] = ren
+        # locals that were merely renamed (same declarations in the same order, same types) get their confirmed names back
+        try:
+            with open(os.path.join(VERIF, "rules", "tables", "anchors.json")) as f:
+                lconf = json.load(f).get("locals", {})
+        except OSError:
+            lconf = {}
+        self.renamed_locals = {}
+        if os.environ.get("VERIF_NO_RENAME"):
+            lconf = {}
+        for tab in (self.functions, self.util_functions):
+            for name, fn in tab.items():
+                conf = lconf.get(name)
+                if not conf:
+                    continue
+                cur = []
+                for n2 in fn.nodes:
+                    if n2 is not None and n2.k == "DeclStmt" and n2.j.get("synthetic_of") is None:
+                        for d2 in n2.j.get("decls", []):
+                            cur.append(d2)
+                if len(cur) != len(conf) or [d2.get("ct") for d2 in cur] != [c[1] for c in conf]:
+                    continue
+                if [d2["name"] for d2 in cur] == [c[0] for c in conf]:
+                    continue
+                pnames = set(q["name"] for q in fn.params)
+                ren = {}
+                for d2, c in zip(cur, conf):
+                    if d2["name"] != c[0]:
+                        ren[d2.get("did")] = (d2["name"], c[0])
+                if any(newn in pnames for (_o, newn) in ren.values()) or None in ren:
+                    continue
+                for n2 in fn.nodes:
+                    if n2 is not None and n2.k == "DeclStmt":
+                        for d2 in n2.j.get("decls", []):
+                            if d2.get("did") in ren:
+                                d2["name"] = ren[d2["did"]][1]
+                for n2 in fn.nodes:
+                    if n2 is not None and n2.k == "DeclRefExpr" and n2.j.get("dk") in ("local", "static_local") and n2.j.get("did") in ren:
+                        n2.j["name"] = ren[n2.j["did"]][1]
+                if hasattr(fn, "_alias_map"):
+                    fn._alias_map = None
+                self.renamed_locals[name] = {o: nn for (o, nn) in ren.values()}
         for tab in (self.functions, self.util_functions):
             helpers = {}
             for name, fn in tab.items():
